@@ -76,9 +76,11 @@ def run(prog, rep):
                         "`obj._parent = None` is stored as well; BaseObject.clone is copy.copy(self)")
     base_clone = prog.func("base.BaseObject.clone")
     rep.saw_function(base_clone)
+    from ..symtext import canon_text
+    bx = Expander(base_clone, inline=prog)
     rets = [n.value for n in walk_no_nested(base_clone.node) if isinstance(n, ast.Return)]
-    cp = [c for c in calls_in(base_clone.node) if call_name(c) in ("copy.copy",)]
-    rep.check(len(cp) == 1 and unparse(cp[0].args[0]) == base_clone.params[0] and len(rets) == 1, "ALIAS-1",
+    rtexts = [canon_text(prog, base_clone, bx.expand(v)) if v is not None else "None" for v in rets]
+    rep.check(len(rets) == 1 and rtexts == ["copy.copy(%s)" % base_clone.params[0]], "ALIAS-1",
               "BaseObject.clone is a shallow copy of self", "copy.copy(self)", "BaseObject.clone no longer returns copy.copy(self)", base_clone.where)
     for cname in MODEL:
         cls = prog.cls(cname)
